@@ -8,6 +8,9 @@ mod est;
 mod sched;
 mod tpl;
 mod stylebuild;
+mod field;
+mod bargeom;
+mod place;
 
 use std::io::{BufRead, BufWriter, Write};
 
@@ -92,6 +95,9 @@ fn main() {
         }
         "tpl" => stylebuild::run_forked(input, &mut out, tpl::run_history, tpl::abort_rec),
         "stylebuild" => stylebuild::run_all(input, &mut out),
+        "field" => { clock::enable(); field::for_each_history(input, &mut out, field::run_history); }
+        "bargeom" => { clock::enable(); field::for_each_history(input, &mut out, bargeom::run_history); }
+        "place" => { clock::enable(); field::for_each_history(input, &mut out, place::run_history); }
         "show" => {
             clock::enable();
             for line in input.lines() {
